@@ -125,6 +125,625 @@ func resetFields(files []*ast.File, typ string, all []string) []string {
 	return out
 }
 
+// ---------------------------------------------------------------------------------------------------
+// reset effects: WHAT Reset does to each field, in source order (methods of the type called on the
+// receiver are followed in place). Kinds:
+//   zero             recv.f = "" | nil | 0 | false            (also every field under `*recv = T{}`)
+//   default <expr>   recv.f = <identifier / selector / literal that does not mention the receiver>
+//   truncate         recv.f = recv.f[:0]
+//   helper <M>       recv.f.M()  with M = Reset            (the field's own Reset)
+//   pool <F>         for len(recv.f) != 0 { t := recv.f[0]; recv.f = recv.f[1:]; F(t) }   (drained, each element
+//                    handed to F = Release…)
+//   released <F>     for _, t := range recv.f { F(t) }       (elements released, the slice itself untouched)
+//   touched          any other occurrence of recv.f (read, other method call): NOT a reset
+//   opaque           recv.f = <anything else>: the translator cannot say what the field holds afterwards
+// ---------------------------------------------------------------------------------------------------
+
+type effect struct{ field, kind, arg string }
+
+func exprString(e ast.Expr) string {
+	switch v := e.(type) {
+	case *ast.Ident:
+		return v.Name
+	case *ast.BasicLit:
+		return v.Value
+	case *ast.SelectorExpr:
+		return exprString(v.X) + "." + v.Sel.Name
+	case *ast.ParenExpr:
+		return "(" + exprString(v.X) + ")"
+	}
+	return "?"
+}
+
+func mentions(e ast.Node, name string) bool {
+	found := false
+	ast.Inspect(e, func(n ast.Node) bool {
+		if id, ok := n.(*ast.Ident); ok && id.Name == name {
+			found = true
+		}
+		return !found
+	})
+	return found
+}
+
+// recvField: e is `recv.f` for a field f
+func recvField(e ast.Expr, recv string, isField map[string]bool) (string, bool) {
+	se, ok := e.(*ast.SelectorExpr)
+	if !ok {
+		return "", false
+	}
+	x, ok := se.X.(*ast.Ident)
+	if !ok || x.Name != recv || !isField[se.Sel.Name] {
+		return "", false
+	}
+	return se.Sel.Name, true
+}
+
+func isZeroLit(e ast.Expr) bool {
+	switch v := e.(type) {
+	case *ast.BasicLit:
+		return v.Value == `""` || v.Value == "0" || v.Value == "``"
+	case *ast.Ident:
+		return v.Name == "nil" || v.Name == "false"
+	}
+	return false
+}
+
+func methodsOf(files []*ast.File, typ string) map[string]*ast.FuncDecl {
+	methods := map[string]*ast.FuncDecl{}
+	for _, f := range files {
+		for _, d := range f.Decls {
+			fd, ok := d.(*ast.FuncDecl)
+			if !ok || fd.Recv == nil || len(fd.Recv.List) != 1 || fd.Body == nil {
+				continue
+			}
+			t := fd.Recv.List[0].Type
+			if star, ok := t.(*ast.StarExpr); ok {
+				t = star.X
+			}
+			if id, ok := t.(*ast.Ident); ok && id.Name == typ && len(fd.Recv.List[0].Names) == 1 {
+				methods[fd.Name.Name] = fd
+			}
+		}
+	}
+	return methods
+}
+
+func resetEffects(files []*ast.File, typ string, all []string) []effect {
+	methods := methodsOf(files, typ)
+	if methods["Reset"] == nil {
+		die("(*%s).Reset not found", typ)
+	}
+	isField := map[string]bool{}
+	for _, f := range all {
+		isField[f] = true
+	}
+	var out []effect
+	emit := func(f, k, a string) { out = append(out, effect{f, k, a}) }
+	var walkFn func(fd *ast.FuncDecl, depth int)
+	// touches: every remaining occurrence of recv.f below n is a mere touch
+	touches := func(n ast.Node, recv string) {
+		if n == nil {
+			return
+		}
+		ast.Inspect(n, func(m ast.Node) bool {
+			if e, ok := m.(ast.Expr); ok {
+				if f, ok := recvField(e, recv, isField); ok {
+					emit(f, "touched", "")
+					return false
+				}
+			}
+			return true
+		})
+	}
+	// releaseCallOn: stmt is `F(t)` with an identifier argument; returns F
+	releaseCall := func(s ast.Stmt) (string, string, bool) {
+		es, ok := s.(*ast.ExprStmt)
+		if !ok {
+			return "", "", false
+		}
+		c, ok := es.X.(*ast.CallExpr)
+		if !ok || len(c.Args) != 1 {
+			return "", "", false
+		}
+		a, ok := c.Args[0].(*ast.Ident)
+		if !ok {
+			return "", "", false
+		}
+		fn := exprString(c.Fun)
+		if !strings.Contains(fn, "Release") {
+			return "", "", false
+		}
+		return fn, a.Name, true
+	}
+	// drainLoop: for len(recv.f) != 0 { t := recv.f[0]; recv.f = recv.f[1:]; F(t) }
+	drainLoop := func(fs *ast.ForStmt, recv string) (string, string, bool) {
+		if fs.Init != nil || fs.Post != nil || fs.Cond == nil || len(fs.Body.List) != 3 {
+			return "", "", false
+		}
+		be, ok := fs.Cond.(*ast.BinaryExpr)
+		if !ok || !(be.Op == token.NEQ || be.Op == token.GTR) {
+			return "", "", false
+		}
+		if z, ok := be.Y.(*ast.BasicLit); !ok || z.Value != "0" {
+			return "", "", false
+		}
+		lc, ok := be.X.(*ast.CallExpr)
+		if !ok || exprString(lc.Fun) != "len" || len(lc.Args) != 1 {
+			return "", "", false
+		}
+		f, ok := recvField(lc.Args[0], recv, isField)
+		if !ok {
+			return "", "", false
+		}
+		// t := recv.f[0]
+		a0, ok := fs.Body.List[0].(*ast.AssignStmt)
+		if !ok || a0.Tok != token.DEFINE || len(a0.Lhs) != 1 || len(a0.Rhs) != 1 {
+			return "", "", false
+		}
+		tv, ok := a0.Lhs[0].(*ast.Ident)
+		ix, ok2 := a0.Rhs[0].(*ast.IndexExpr)
+		if !ok || !ok2 {
+			return "", "", false
+		}
+		if g, ok := recvField(ix.X, recv, isField); !ok || g != f {
+			return "", "", false
+		}
+		if z, ok := ix.Index.(*ast.BasicLit); !ok || z.Value != "0" {
+			return "", "", false
+		}
+		// recv.f = recv.f[1:]
+		a1, ok := fs.Body.List[1].(*ast.AssignStmt)
+		if !ok || a1.Tok != token.ASSIGN || len(a1.Lhs) != 1 || len(a1.Rhs) != 1 {
+			return "", "", false
+		}
+		if g, ok := recvField(a1.Lhs[0], recv, isField); !ok || g != f {
+			return "", "", false
+		}
+		sl, ok := a1.Rhs[0].(*ast.SliceExpr)
+		if !ok || sl.High != nil || sl.Low == nil {
+			return "", "", false
+		}
+		if g, ok := recvField(sl.X, recv, isField); !ok || g != f {
+			return "", "", false
+		}
+		if o, ok := sl.Low.(*ast.BasicLit); !ok || o.Value != "1" {
+			return "", "", false
+		}
+		fn, arg, ok := releaseCall(fs.Body.List[2])
+		if !ok || arg != tv.Name {
+			return "", "", false
+		}
+		return f, fn, true
+	}
+	// rangeRelease: for _, t := range recv.f { F(t) }
+	rangeRelease := func(rs *ast.RangeStmt, recv string) (string, string, bool) {
+		f, ok := recvField(rs.X, recv, isField)
+		if !ok || rs.Value == nil || len(rs.Body.List) != 1 {
+			return "", "", false
+		}
+		tv, ok := rs.Value.(*ast.Ident)
+		if !ok {
+			return "", "", false
+		}
+		fn, arg, ok := releaseCall(rs.Body.List[0])
+		if !ok || arg != tv.Name {
+			return "", "", false
+		}
+		return f, fn, true
+	}
+	var walkStmt func(s ast.Stmt, recv string, depth int)
+	walkBlock := func(b *ast.BlockStmt, recv string, depth int) {
+		if b == nil {
+			return
+		}
+		for _, s := range b.List {
+			walkStmt(s, recv, depth)
+		}
+	}
+	walkStmt = func(s ast.Stmt, recv string, depth int) {
+		switch v := s.(type) {
+		case *ast.AssignStmt:
+			if v.Tok == token.ASSIGN && len(v.Lhs) == len(v.Rhs) {
+				for i, l := range v.Lhs {
+					r := v.Rhs[i]
+					// *recv = T{}  /  *recv = <anything else>
+					if st, ok := l.(*ast.StarExpr); ok {
+						if x, ok := st.X.(*ast.Ident); ok && x.Name == recv {
+							kind := "opaque"
+							if cl, ok := r.(*ast.CompositeLit); ok && len(cl.Elts) == 0 {
+								kind = "zero"
+							}
+							for _, f := range all {
+								emit(f, kind, "")
+							}
+							continue
+						}
+					}
+					f, ok := recvField(l, recv, isField)
+					if !ok {
+						touches(l, recv)
+						touches(r, recv)
+						continue
+					}
+					switch {
+					case isZeroLit(r):
+						emit(f, "zero", "")
+					case !mentions(r, recv) && exprString(r) != "?":
+						emit(f, "default", exprString(r))
+					default:
+						if sl, ok := r.(*ast.SliceExpr); ok && sl.Low == nil && sl.High != nil && sl.Max == nil {
+							g, ok1 := recvField(sl.X, recv, isField)
+							z, ok2 := sl.High.(*ast.BasicLit)
+							if ok1 && g == f && ok2 && z.Value == "0" {
+								emit(f, "truncate", "")
+								continue
+							}
+						}
+						emit(f, "opaque", "")
+					}
+				}
+				return
+			}
+			touches(v, recv)
+		case *ast.ExprStmt:
+			if c, ok := v.X.(*ast.CallExpr); ok {
+				if se, ok := c.Fun.(*ast.SelectorExpr); ok {
+					// recv.f.M()
+					if f, ok := recvField(se.X, recv, isField); ok && len(c.Args) == 0 {
+						if se.Sel.Name == "Reset" {
+							emit(f, "helper", se.Sel.Name)
+						} else {
+							emit(f, "touched", "")
+						}
+						return
+					}
+					// recv.method(...)
+					if x, ok := se.X.(*ast.Ident); ok && x.Name == recv {
+						if m := methods[se.Sel.Name]; m != nil {
+							for _, a := range c.Args {
+								touches(a, recv)
+							}
+							walkFn(m, depth+1)
+							return
+						}
+					}
+				}
+			}
+			touches(v, recv)
+		case *ast.ForStmt:
+			if f, fn, ok := drainLoop(v, recv); ok {
+				emit(f, "pool", fn)
+				return
+			}
+			touches(v.Cond, recv)
+			walkBlock(v.Body, recv, depth)
+		case *ast.RangeStmt:
+			if f, fn, ok := rangeRelease(v, recv); ok {
+				emit(f, "released", fn)
+				return
+			}
+			touches(v.X, recv)
+			walkBlock(v.Body, recv, depth)
+		case *ast.IfStmt:
+			// a conditional reset is no reset: everything below counts as touched
+			touches(v, recv)
+		case *ast.BlockStmt:
+			walkBlock(v, recv, depth)
+		default:
+			touches(s, recv)
+		}
+	}
+	visiting := map[string]bool{}
+	walkFn = func(fd *ast.FuncDecl, depth int) {
+		if visiting[fd.Name.Name] || depth > 4 {
+			return
+		}
+		visiting[fd.Name.Name] = true
+		walkBlock(fd.Body, fd.Recv.List[0].Names[0].Name, depth)
+		visiting[fd.Name.Name] = false
+	}
+	walkFn(methods["Reset"], 0)
+	return out
+}
+
+func leanEffects(es []effect) string {
+	q := make([]string, len(es))
+	for i, e := range es {
+		q[i] = fmt.Sprintf("(%s, %s, %s)", strconv.Quote(e.field), strconv.Quote(e.kind), strconv.Quote(e.arg))
+	}
+	return "[" + strings.Join(q, ",\n   ") + "]"
+}
+
+// ---------------------------------------------------------------------------------------------------
+// execFunc order: the statements of client/core.go `(*core).execFunc` that the hand-off model (Exec.lean)
+// speaks about, as tokens in source order with their nesting:
+//   acquire-response acquire-chan defer-release-chan copy-request
+//   go{ … }            the request goroutine
+//   do                 fasthttp Do / DoRedirects / the retry wrapper (consecutive ones count once)
+//   if-cas-won{ … }    if atomic.CompareAndSwapInt32(&done, 0, 1)
+//   if-err{ … }        if err != nil
+//   send-err send-nil  errCh <- err / errCh <- nil
+//   copyto             respv.CopyTo(resp.RawResponse)
+//   select{ case-recv{ … } case-ctx{ … } }
+//   if-swap-was-set{ … }   if atomic.SwapInt32(&done, 1) == 1
+//   swap               atomic.SwapInt32(&done, 1) outside such an `if`
+//   recv               <-errCh as a statement
+//   release-response   ReleaseResponse(resp)
+//   return-resp return-err return-timeout return
+//   if{ … } else{ … }  any other conditional that contains one of the tokens above
+// Calls of the verif yield hook and everything else are left out.
+// ---------------------------------------------------------------------------------------------------
+
+func execOrder(files []*ast.File) []string {
+	var fn *ast.FuncDecl
+	for _, f := range files {
+		for _, d := range f.Decls {
+			if fd, ok := d.(*ast.FuncDecl); ok && fd.Name.Name == "execFunc" && fd.Recv != nil && fd.Body != nil {
+				fn = fd
+			}
+		}
+	}
+	if fn == nil {
+		die("execFunc not found in client/core.go")
+	}
+	var out []string
+	emit := func(t string) {
+		if t == "do" && len(out) > 0 && out[len(out)-1] == "do" {
+			return
+		}
+		out = append(out, t)
+	}
+	callName := func(c *ast.CallExpr) string {
+		switch f := c.Fun.(type) {
+		case *ast.Ident:
+			return f.Name
+		case *ast.SelectorExpr:
+			return f.Sel.Name
+		}
+		return ""
+	}
+	isAtomic := func(e ast.Expr, name string) bool {
+		found := false
+		ast.Inspect(e, func(n ast.Node) bool {
+			if c, ok := n.(*ast.CallExpr); ok && callName(c) == name {
+				found = true
+			}
+			return !found
+		})
+		return found
+	}
+	isRecvErrCh := func(e ast.Expr) bool {
+		u, ok := e.(*ast.UnaryExpr)
+		if !ok || u.Op != token.ARROW {
+			return false
+		}
+		id, ok := u.X.(*ast.Ident)
+		return ok && id.Name == "errCh"
+	}
+	var walkExpr func(e ast.Node)
+	var walkStmt func(s ast.Stmt)
+	walkBlock := func(b *ast.BlockStmt) {
+		if b != nil {
+			for _, s := range b.List {
+				walkStmt(s)
+			}
+		}
+	}
+	walkExpr = func(e ast.Node) {
+		if e == nil {
+			return
+		}
+		ast.Inspect(e, func(n ast.Node) bool {
+			switch v := n.(type) {
+			case *ast.FuncLit:
+				return false // closures other than the goroutine's (retry callback): summarised by the call
+			case *ast.UnaryExpr:
+				if isRecvErrCh(v) {
+					emit("recv")
+					return false
+				}
+			case *ast.CallExpr:
+				switch callName(v) {
+				case "AcquireResponse":
+					if id, ok := v.Fun.(*ast.Ident); ok && id.Name == "AcquireResponse" {
+						emit("acquire-response")
+					}
+				case "acquireErrChan":
+					emit("acquire-chan")
+				case "Do", "DoRedirects", "Retry":
+					emit("do")
+					return false
+				case "CompareAndSwapInt32":
+					emit("cas")
+				case "SwapInt32":
+					emit("swap")
+				case "CopyTo":
+					if len(v.Args) == 1 && exprString(v.Args[0]) == "resp.RawResponse" {
+						emit("copyto")
+					} else if len(v.Args) == 1 && exprString(v.Args[0]) == "reqv" {
+						emit("copy-request")
+					} else {
+						emit("copyto-other")
+					}
+				case "ReleaseResponse":
+					if id, ok := v.Fun.(*ast.Ident); ok && id.Name == "ReleaseResponse" {
+						emit("release-response")
+					}
+				case "releaseErrChan":
+					emit("release-chan")
+				}
+			}
+			return true
+		})
+	}
+	// relevant: does walking n emit anything?
+	relevant := func(f func()) bool {
+		save := out
+		out = nil
+		f()
+		r := len(out) > 0
+		out = save
+		return r
+	}
+	walkStmt = func(s ast.Stmt) {
+		switch v := s.(type) {
+		case *ast.DeferStmt:
+			if callName(v.Call) == "releaseErrChan" {
+				emit("defer-release-chan")
+				return
+			}
+			if fl, ok := v.Call.Fun.(*ast.FuncLit); ok {
+				if relevant(func() { walkBlock(fl.Body) }) {
+					emit("defer{")
+					walkBlock(fl.Body)
+					emit("}")
+				}
+				return
+			}
+			walkExpr(v.Call)
+		case *ast.GoStmt:
+			emit("go{")
+			if fl, ok := v.Call.Fun.(*ast.FuncLit); ok {
+				walkBlock(fl.Body)
+			} else {
+				emit("opaque")
+			}
+			emit("}")
+		case *ast.SendStmt:
+			if id, ok := v.Chan.(*ast.Ident); ok && id.Name == "errCh" {
+				switch exprString(v.Value) {
+				case "nil":
+					emit("send-nil")
+				case "err":
+					emit("send-err")
+				default:
+					emit("send-other")
+				}
+				return
+			}
+			walkExpr(v)
+		case *ast.ReturnStmt:
+			switch {
+			case len(v.Results) == 0:
+				emit("return")
+			case len(v.Results) == 2 && exprString(v.Results[0]) == "resp" && exprString(v.Results[1]) == "nil":
+				emit("return-resp")
+			case len(v.Results) == 2 && exprString(v.Results[0]) == "nil" && exprString(v.Results[1]) == "err":
+				emit("return-err")
+			case len(v.Results) == 2 && exprString(v.Results[0]) == "nil" && exprString(v.Results[1]) == "ErrTimeoutOrCancel":
+				emit("return-timeout")
+			default:
+				emit("return-other")
+			}
+		case *ast.IfStmt:
+			if v.Init != nil {
+				walkStmt(v.Init)
+			}
+			cond := exprString(v.Cond)
+			if be, ok := v.Cond.(*ast.BinaryExpr); ok {
+				cond = exprString(be.X) + " " + be.Op.String() + " " + exprString(be.Y)
+			}
+			switch {
+			case isAtomic(v.Cond, "CompareAndSwapInt32"):
+				emit("if-cas-won{")
+			case isAtomic(v.Cond, "SwapInt32"):
+				if be, ok := v.Cond.(*ast.BinaryExpr); ok && be.Op == token.EQL && exprString(be.Y) == "1" {
+					emit("if-swap-was-set{")
+				} else {
+					emit("if-swap-other{")
+				}
+			case cond == "err != nil":
+				emit("if-err{")
+			default:
+				// which tokens does the whole conditional produce?
+				save := out
+				out = nil
+				walkExpr(v.Cond)
+				walkBlock(v.Body)
+				if v.Else != nil {
+					walkStmt(v.Else)
+				}
+				inner := out
+				out = save
+				if len(inner) == 0 {
+					return
+				}
+				onlyDo := true
+				for _, t := range inner {
+					if t != "do" && t != "if{" && t != "else{" && t != "}" {
+						onlyDo = false
+					}
+				}
+				if onlyDo { // Do / DoRedirects / retry: which transport call is taken does not matter here
+					emit("do")
+					return
+				}
+				walkExpr(v.Cond)
+				emit("if{")
+			}
+			walkBlock(v.Body)
+			emit("}")
+			if v.Else != nil {
+				emit("else{")
+				walkStmt(v.Else)
+				emit("}")
+			}
+		case *ast.BlockStmt:
+			walkBlock(v)
+		case *ast.SelectStmt:
+			emit("select{")
+			for _, c := range v.Body.List {
+				cc := c.(*ast.CommClause)
+				tok := "case-other{"
+				switch cm := cc.Comm.(type) {
+				case nil:
+					tok = "case-default{"
+				case *ast.AssignStmt:
+					if len(cm.Rhs) == 1 && isRecvErrCh(cm.Rhs[0]) {
+						tok = "case-recv{"
+					}
+				case *ast.ExprStmt:
+					if isRecvErrCh(cm.X) {
+						tok = "case-recv{"
+					} else if u, ok := cm.X.(*ast.UnaryExpr); ok && u.Op == token.ARROW && strings.HasSuffix(exprStringCall(u.X), "ctx.Done()") {
+						tok = "case-ctx{"
+					}
+				}
+				emit(tok)
+				for _, s := range cc.Body {
+					walkStmt(s)
+				}
+				emit("}")
+			}
+			emit("}")
+		case *ast.ForStmt:
+			if relevant(func() { walkBlock(v.Body) }) {
+				emit("loop{")
+				walkBlock(v.Body)
+				emit("}")
+			}
+		case *ast.RangeStmt:
+			if relevant(func() { walkBlock(v.Body) }) {
+				emit("loop{")
+				walkBlock(v.Body)
+				emit("}")
+			}
+		default:
+			walkExpr(s)
+		}
+	}
+	walkBlock(fn.Body)
+	return out
+}
+
+func exprStringCall(e ast.Expr) string {
+	if c, ok := e.(*ast.CallExpr); ok {
+		return exprString(c.Fun) + "()"
+	}
+	return exprString(e)
+}
+
 func parseDir(dir string) []*ast.File {
 	ents, err := os.ReadDir(dir)
 	if err != nil {
@@ -164,6 +783,9 @@ func main() {
 	fmt.Fprintf(&b, "/-- fields `(*Request).Reset` touches -/\ndef requestResetFields : List String := %s\n\n", leanList(resetFields(pkg, "Request", reqF)))
 	fmt.Fprintf(&b, "/-- fields of `type Response struct`, in declaration order -/\ndef responseFields : List String := %s\n\n", leanList(respF))
 	fmt.Fprintf(&b, "/-- fields `(*Response).Reset` touches -/\ndef responseResetFields : List String := %s\n\n", leanList(resetFields(pkg, "Response", respF)))
+	fmt.Fprintf(&b, "/-- what `(*Request).Reset` does, effect by effect in source order: (field, kind, argument) -/\ndef requestResetEffects : List (String × String × String) :=\n  %s\n\n", leanEffects(resetEffects(pkg, "Request", reqF)))
+	fmt.Fprintf(&b, "/-- what `(*Response).Reset` does -/\ndef responseResetEffects : List (String × String × String) :=\n  %s\n\n", leanEffects(resetEffects(pkg, "Response", respF)))
+	fmt.Fprintf(&b, "/-- the hand-off statements of `(*core).execFunc` (client/core.go) in source order, with nesting -/\ndef execOrder : List String :=\n  %s\n\n", leanList(execOrder([]*ast.File{parse(filepath.Join(*repo, "client/core.go"))})))
 	b.WriteString("end C18.Facts\n")
 	if err := os.MkdirAll(filepath.Dir(*out), 0o755); err != nil {
 		die("%v", err)
